@@ -31,6 +31,9 @@ type Prog struct {
 	// Literal: most instructions are built as struct literals (exported fields
 	// set, cached Typ left unset) instead of through the New* constructors.
 	Literal bool `json:"literal,omitempty"`
+	// Rich: operands and initialisers may be constant expressions of the rarer
+	// kinds, aggregate constants, poison (gen2.go).
+	Rich bool `json:"rich,omitempty"`
 }
 
 // Step is one construction or editing step.
@@ -84,15 +87,15 @@ type genParams struct {
 }
 
 const (
-	nInstKinds = 35
-	nTermKinds = 6
+	nInstKinds = 64
+	nTermKinds = 12
 )
 
 var namePool = []string{"", "", "", "x", "y", "tmp", "val", "res", "a b", "p.q", "entry", "loop", "exit", "0", "1", "3", "7"}
 
 // genProgram draws a program.
 func genProgram(r *rng, p genParams) *Prog {
-	pr := &Prog{IllFormed: p.IllFormed && !p.Literal, Literal: p.Literal}
+	pr := &Prog{IllFormed: p.IllFormed && !p.Literal, Literal: p.Literal, Rich: r.chance(1, 2)}
 	disabled := map[string]bool{}
 	var allowedKinds []int
 	if p.Swarm {
@@ -148,6 +151,21 @@ func genProgram(r *rng, p genParams) *Prog {
 		}
 		return k
 	}
+	// The six common terminators are drawn twice as often as the rarer ones.
+	termKind := func() int {
+		if k := r.intn(nTermKinds + 6); k < nTermKinds {
+			return k
+		} else {
+			return k - nTermKinds
+		}
+	}
+	// Optional fields of functions and globals: one new entity in three.
+	deco := func() int {
+		if r.chance(1, 3) {
+			return 1 + r.intn(1<<10)
+		}
+		return 0
+	}
 	name := func() string { return namePool[r.intn(len(namePool))] }
 	// A little scaffolding first so that most steps apply.
 	ng := r.intn(3)
@@ -184,17 +202,17 @@ func genProgram(r *rng, p genParams) *Prog {
 				add(Step{Op: "attrgroup", K: r.intn(8), A: sel(), B: sel()})
 			}
 		case x < 6:
-			add(Step{Op: "global", K: []int{0, 1, 2, 3, 4, 6, 7, 8, 9}[r.intn(9)], A: sel(), Name: name()})
+			add(Step{Op: "global", K: []int{0, 1, 2, 3, 4, 6, 7, 8, 9}[r.intn(9)], A: sel(), P: deco(), Name: name()})
 		case x < 10:
-			add(Step{Op: "func", K: r.intn(5), A: r.intn(4), B: sel(), C: sel(), D: sel(), Name: name()})
+			add(Step{Op: "func", K: r.intn(5), A: r.intn(4), B: sel(), C: sel(), D: sel(), P: deco(), Name: name()})
 		case x < 20:
 			add(Step{Op: "block", A: sel(), Name: name()})
 		case x < 58:
-			add(Step{Op: "inst", K: instKind(), A: sel(), B: sel(), C: sel(), D: sel(), Name: name()})
+			add(Step{Op: "inst", K: instKind(), A: sel(), B: sel(), C: sel(), D: sel(), P: sel(), Name: name()})
 		case x < 68:
 			add(Step{Op: "insert", K: instKind(), A: sel(), B: sel(), C: sel(), D: sel(), P: sel(), Name: name()})
 		case x < 80:
-			add(Step{Op: "term", K: r.intn(nTermKinds), A: sel(), B: sel(), C: sel(), D: sel(), Name: name()})
+			add(Step{Op: "term", K: termKind(), A: sel(), B: sel(), C: sel(), D: sel(), P: sel(), Name: name()})
 		case x < 85:
 			add(Step{Op: "setname", K: r.intn(6), A: sel(), B: sel(), C: sel(), Name: name()})
 		case x < 88:
@@ -302,6 +320,11 @@ type machine struct {
 	printedOnce bool
 	illFormed   bool
 	literal     bool
+	richConsts  bool
+	// viaBlock is set while an "inst" step that asked for it builds its
+	// instruction: the Block.New* method appends by itself (viaUsed).
+	viaBlock *ir.Block
+	viaUsed  bool
 }
 
 type mfunc struct {
@@ -429,7 +452,12 @@ func (mc *machine) typeOf(v value.Value) types.Type {
 }
 
 func (mc *machine) konst(t types.Type, sel int) value.Value {
+	if v := mc.konst2(t, sel); v != nil {
+		return v
+	}
 	switch {
+	case t.Equal(tF32):
+		return constant.NewFloat(tF32, float64(sel%32)/2)
 	case t.Equal(tI1):
 		return constant.NewInt(tI1, int64(sel%2))
 	case t.Equal(tI8):
@@ -503,11 +531,15 @@ func (mc *machine) unuse(user interface{}) {
 // newInst builds (without inserting) an instruction of kind k for function f.
 func (mc *machine) newInst(f *mfunc, k, c, d int) ir.Instruction {
 	var in ir.Instruction
-	var calleeRet types.Type
+	var calleeRet, rt2 types.Type
 	defer func() {
 		// Record the result type the builder intends (never ask the instruction).
 		if v, ok := in.(value.Value); ok {
-			mc.vtype[v] = resultTypeOfKind(in, k%nInstKinds, d, calleeRet)
+			if rt2 != nil {
+				mc.vtype[v] = rt2
+			} else {
+				mc.vtype[v] = resultTypeOfKind(in, k%nInstKinds, d, calleeRet)
+			}
 			mc.born[v] = mc.stepNo
 		}
 	}()
@@ -518,7 +550,11 @@ func (mc *machine) newInst(f *mfunc, k, c, d int) ir.Instruction {
 	if lit {
 		// only kinds that have a literal form below: no constructor ever runs, so
 		// no cached Typ is filled in by the builder
-		k = []int{0, 1, 2, 3, 4, 5, 6, 7, 8, 9, 11, 12, 13, 15, 16, 17}[k%16]
+		if k%nInstKinds < 35 {
+			k = []int{0, 1, 2, 3, 4, 5, 6, 7, 8, 9, 11, 12, 13, 15, 16, 17}[k%16]
+		} else {
+			k = []int{35, 39, 42, 44, 45, 49}[k%6]
+		}
 		mc.probes["instruction built as a struct literal (Typ unset)"]++
 	}
 	switch k % nInstKinds {
@@ -527,7 +563,7 @@ func (mc *machine) newInst(f *mfunc, k, c, d int) ir.Instruction {
 		if lit {
 			in = &ir.InstAdd{X: x, Y: y}
 		} else {
-			in = ir.NewAdd(x, y)
+			in = mc.via(func() ir.Instruction { return ir.NewAdd(x, y) }, func(vb *ir.Block) ir.Instruction { return vb.NewAdd(x, y) })
 		}
 		mc.use(in, x, y)
 	case 1:
@@ -535,7 +571,7 @@ func (mc *machine) newInst(f *mfunc, k, c, d int) ir.Instruction {
 		if lit {
 			in = &ir.InstSub{X: x, Y: y}
 		} else {
-			in = ir.NewSub(x, y)
+			in = mc.via(func() ir.Instruction { return ir.NewSub(x, y) }, func(vb *ir.Block) ir.Instruction { return vb.NewSub(x, y) })
 		}
 		mc.use(in, x, y)
 	case 2:
@@ -543,7 +579,7 @@ func (mc *machine) newInst(f *mfunc, k, c, d int) ir.Instruction {
 		if lit {
 			in = &ir.InstMul{X: x, Y: y}
 		} else {
-			in = ir.NewMul(x, y)
+			in = mc.via(func() ir.Instruction { return ir.NewMul(x, y) }, func(vb *ir.Block) ir.Instruction { return vb.NewMul(x, y) })
 		}
 		mc.use(in, x, y)
 	case 3:
@@ -551,7 +587,7 @@ func (mc *machine) newInst(f *mfunc, k, c, d int) ir.Instruction {
 		if lit {
 			in = &ir.InstXor{X: x, Y: y}
 		} else {
-			in = ir.NewXor(x, y)
+			in = mc.via(func() ir.Instruction { return ir.NewXor(x, y) }, func(vb *ir.Block) ir.Instruction { return vb.NewXor(x, y) })
 		}
 		mc.use(in, x, y)
 	case 4:
@@ -559,7 +595,7 @@ func (mc *machine) newInst(f *mfunc, k, c, d int) ir.Instruction {
 		if lit {
 			in = &ir.InstShl{X: x, Y: y}
 		} else {
-			in = ir.NewShl(x, y)
+			in = mc.via(func() ir.Instruction { return ir.NewShl(x, y) }, func(vb *ir.Block) ir.Instruction { return vb.NewShl(x, y) })
 		}
 		mc.use(in, x, y)
 	case 5:
@@ -567,7 +603,7 @@ func (mc *machine) newInst(f *mfunc, k, c, d int) ir.Instruction {
 		if lit {
 			in = &ir.InstICmp{Pred: enum.IPred(c % 10), X: x, Y: y}
 		} else {
-			in = ir.NewICmp(enum.IPred(c%10), x, y)
+			in = mc.via(func() ir.Instruction { return ir.NewICmp(enum.IPred(c%10), x, y) }, func(vb *ir.Block) ir.Instruction { return vb.NewICmp(enum.IPred(c%10), x, y) })
 		}
 		mc.use(in, x, y)
 	case 6:
@@ -575,21 +611,21 @@ func (mc *machine) newInst(f *mfunc, k, c, d int) ir.Instruction {
 		if lit {
 			in = &ir.InstSelect{Cond: cond, ValueTrue: x, ValueFalse: y}
 		} else {
-			in = ir.NewSelect(cond, x, y)
+			in = mc.via(func() ir.Instruction { return ir.NewSelect(cond, x, y) }, func(vb *ir.Block) ir.Instruction { return vb.NewSelect(cond, x, y) })
 		}
 		mc.use(in, cond, x, y)
 	case 7:
 		if lit {
 			in = &ir.InstAlloca{ElemType: tI32}
 		} else {
-			in = ir.NewAlloca(tI32)
+			in = mc.via(func() ir.Instruction { return ir.NewAlloca(tI32) }, func(vb *ir.Block) ir.Instruction { return vb.NewAlloca(tI32) })
 		}
 	case 8:
 		p := mc.pick(f, tP32, c)
 		if lit {
 			in = &ir.InstLoad{ElemType: tI32, Src: p}
 		} else {
-			in = ir.NewLoad(tI32, p)
+			in = mc.via(func() ir.Instruction { return ir.NewLoad(tI32, p) }, func(vb *ir.Block) ir.Instruction { return vb.NewLoad(tI32, p) })
 		}
 		mc.use(in, p)
 	case 9:
@@ -597,11 +633,11 @@ func (mc *machine) newInst(f *mfunc, k, c, d int) ir.Instruction {
 		if lit {
 			in = &ir.InstStore{Src: x, Dst: p}
 		} else {
-			in = ir.NewStore(x, p)
+			in = mc.via(func() ir.Instruction { return ir.NewStore(x, p) }, func(vb *ir.Block) ir.Instruction { return vb.NewStore(x, p) })
 		}
 		mc.use(in, x, p)
 	case 10:
-		in = ir.NewFence(enum.AtomicOrderingSequentiallyConsistent)
+		in = mc.via(func() ir.Instruction { return ir.NewFence(enum.AtomicOrderingSequentiallyConsistent) }, func(vb *ir.Block) ir.Instruction { return vb.NewFence(enum.AtomicOrderingSequentiallyConsistent) })
 	case 11:
 		callee := mc.fn(c)
 		var args []value.Value
@@ -619,7 +655,7 @@ func (mc *machine) newInst(f *mfunc, k, c, d int) ir.Instruction {
 		if lit {
 			in = &ir.InstCall{Callee: callee.f, Args: args}
 		} else {
-			in = ir.NewCall(callee.f, args...)
+			in = mc.via(func() ir.Instruction { return ir.NewCall(callee.f, args...) }, func(vb *ir.Block) ir.Instruction { return vb.NewCall(callee.f, args...) })
 		}
 		calleeRet = callee.f.Sig.RetType
 		mc.use(in, append([]value.Value{callee.f}, plain...)...)
@@ -628,7 +664,7 @@ func (mc *machine) newInst(f *mfunc, k, c, d int) ir.Instruction {
 		if lit {
 			in = &ir.InstZExt{From: x, To: tI64}
 		} else {
-			in = ir.NewZExt(x, tI64)
+			in = mc.via(func() ir.Instruction { return ir.NewZExt(x, tI64) }, func(vb *ir.Block) ir.Instruction { return vb.NewZExt(x, tI64) })
 		}
 		mc.use(in, x)
 	case 13:
@@ -636,19 +672,19 @@ func (mc *machine) newInst(f *mfunc, k, c, d int) ir.Instruction {
 		if lit {
 			in = &ir.InstTrunc{From: x, To: tI32}
 		} else {
-			in = ir.NewTrunc(x, tI32)
+			in = mc.via(func() ir.Instruction { return ir.NewTrunc(x, tI32) }, func(vb *ir.Block) ir.Instruction { return vb.NewTrunc(x, tI32) })
 		}
 		mc.use(in, x)
 	case 14:
 		p, i := mc.pick(f, tP32, c), mc.pick(f, tI64, d)
-		in = ir.NewGetElementPtr(tI32, p, i)
+		in = mc.via(func() ir.Instruction { return ir.NewGetElementPtr(tI32, p, i) }, func(vb *ir.Block) ir.Instruction { return vb.NewGetElementPtr(tI32, p, i) })
 		mc.use(in, p, i)
 	case 15:
 		x, y := mc.pick(f, tF64, c), mc.pick(f, tF64, d)
 		if lit {
 			in = &ir.InstFAdd{X: x, Y: y}
 		} else {
-			in = ir.NewFAdd(x, y)
+			in = mc.via(func() ir.Instruction { return ir.NewFAdd(x, y) }, func(vb *ir.Block) ir.Instruction { return vb.NewFAdd(x, y) })
 		}
 		mc.use(in, x, y)
 		if fa, ok := in.(*ir.InstFAdd); ok && (c+d)%3 == 0 {
@@ -660,7 +696,7 @@ func (mc *machine) newInst(f *mfunc, k, c, d int) ir.Instruction {
 		if lit {
 			in = &ir.InstSIToFP{From: x, To: tF64}
 		} else {
-			in = ir.NewSIToFP(x, tF64)
+			in = mc.via(func() ir.Instruction { return ir.NewSIToFP(x, tF64) }, func(vb *ir.Block) ir.Instruction { return vb.NewSIToFP(x, tF64) })
 		}
 		mc.use(in, x)
 	case 17:
@@ -668,7 +704,7 @@ func (mc *machine) newInst(f *mfunc, k, c, d int) ir.Instruction {
 		if lit {
 			in = &ir.InstFCmp{Pred: enum.FPred(c % 14), X: x, Y: y}
 		} else {
-			in = ir.NewFCmp(enum.FPred(c%14), x, y)
+			in = mc.via(func() ir.Instruction { return ir.NewFCmp(enum.FPred(c%14), x, y) }, func(vb *ir.Block) ir.Instruction { return vb.NewFCmp(enum.FPred(c%14), x, y) })
 		}
 		mc.use(in, x, y)
 	case 18:
@@ -681,27 +717,27 @@ func (mc *machine) newInst(f *mfunc, k, c, d int) ir.Instruction {
 			incs = append(incs, ir.NewIncoming(x, b))
 			used = append(used, x, b)
 		}
-		in = ir.NewPhi(incs...)
+		in = mc.via(func() ir.Instruction { return ir.NewPhi(incs...) }, func(vb *ir.Block) ir.Instruction { return vb.NewPhi(incs...) })
 		mc.use(in, used...)
 	case 19:
 		p := mc.pick(f, tP32, c)
-		in = ir.NewBitCast(p, tP8)
+		in = mc.via(func() ir.Instruction { return ir.NewBitCast(p, tP8) }, func(vb *ir.Block) ir.Instruction { return vb.NewBitCast(p, tP8) })
 		mc.use(in, p)
 	case 20:
 		p := mc.pick(f, tP32, c)
-		in = ir.NewPtrToInt(p, tI64)
+		in = mc.via(func() ir.Instruction { return ir.NewPtrToInt(p, tI64) }, func(vb *ir.Block) ir.Instruction { return vb.NewPtrToInt(p, tI64) })
 		mc.use(in, p)
 	case 21:
 		x := mc.pick(f, tF64, c)
-		in = ir.NewFNeg(x)
+		in = mc.via(func() ir.Instruction { return ir.NewFNeg(x) }, func(vb *ir.Block) ir.Instruction { return vb.NewFNeg(x) })
 		mc.use(in, x)
 	case 22:
 		x, y := mc.pick(f, tI1, c), mc.pick(f, tI1, d)
-		in = ir.NewAnd(x, y)
+		in = mc.via(func() ir.Instruction { return ir.NewAnd(x, y) }, func(vb *ir.Block) ir.Instruction { return vb.NewAnd(x, y) })
 		mc.use(in, x, y)
 	case 23:
 		x, y := mc.pick(f, tI32, c), mc.pick(f, tI32, d)
-		in = ir.NewSDiv(x, y)
+		in = mc.via(func() ir.Instruction { return ir.NewSDiv(x, y) }, func(vb *ir.Block) ir.Instruction { return vb.NewSDiv(x, y) })
 		mc.use(in, x, y)
 	case 24:
 		var gs []*ir.Global
@@ -711,52 +747,53 @@ func (mc *machine) newInst(f *mfunc, k, c, d int) ir.Instruction {
 			}
 		}
 		if len(gs) == 0 {
-			in = ir.NewAlloca(tI64)
+			in = mc.via(func() ir.Instruction { return ir.NewAlloca(tI64) }, func(vb *ir.Block) ir.Instruction { return vb.NewAlloca(tI64) })
 		} else {
 			g := gs[c%len(gs)]
-			in = ir.NewLoad(tI32, g)
+			in = mc.via(func() ir.Instruction { return ir.NewLoad(tI32, g) }, func(vb *ir.Block) ir.Instruction { return vb.NewLoad(tI32, g) })
 			mc.use(in, g)
 		}
 	case 25:
 		p, c1, n1 := mc.pick(f, tP32, c), mc.pick(f, tI32, d), mc.pick(f, tI32, c+d)
-		in = ir.NewCmpXchg(p, c1, n1, enum.AtomicOrderingSequentiallyConsistent, enum.AtomicOrderingMonotonic)
+		in = mc.via(func() ir.Instruction { return ir.NewCmpXchg(p, c1, n1, enum.AtomicOrderingSequentiallyConsistent, enum.AtomicOrderingMonotonic) }, func(vb *ir.Block) ir.Instruction { return vb.NewCmpXchg(p, c1, n1, enum.AtomicOrderingSequentiallyConsistent, enum.AtomicOrderingMonotonic) })
 		mc.use(in, p, c1, n1)
 	case 26:
 		p, x := mc.pick(f, tP32, c), mc.pick(f, tI32, d)
-		in = ir.NewAtomicRMW(enum.AtomicOpAdd, p, x, enum.AtomicOrderingAcquireRelease)
+		in = mc.via(func() ir.Instruction { return ir.NewAtomicRMW(enum.AtomicOpAdd, p, x, enum.AtomicOrderingAcquireRelease) }, func(vb *ir.Block) ir.Instruction { return vb.NewAtomicRMW(enum.AtomicOpAdd, p, x, enum.AtomicOrderingAcquireRelease) })
 		mc.use(in, p, x)
 	case 27:
 		x := mc.pick(f, tPair, c)
-		in = ir.NewExtractValue(x, uint64(d%2))
+		in = mc.via(func() ir.Instruction { return ir.NewExtractValue(x, uint64(d%2)) }, func(vb *ir.Block) ir.Instruction { return vb.NewExtractValue(x, uint64(d%2)) })
 		mc.use(in, x)
 	case 28:
 		v, e, i := mc.pick(f, tVec, c), mc.pick(f, tI32, d), mc.pick(f, tI32, c+1)
-		in = ir.NewInsertElement(v, e, i)
+		in = mc.via(func() ir.Instruction { return ir.NewInsertElement(v, e, i) }, func(vb *ir.Block) ir.Instruction { return vb.NewInsertElement(v, e, i) })
 		mc.use(in, v, e, i)
 	case 29:
 		v, i := mc.pick(f, tVec, c), mc.pick(f, tI32, d)
-		in = ir.NewExtractElement(v, i)
+		in = mc.via(func() ir.Instruction { return ir.NewExtractElement(v, i) }, func(vb *ir.Block) ir.Instruction { return vb.NewExtractElement(v, i) })
 		mc.use(in, v, i)
 	case 30:
 		x := mc.pick(f, tI32, c)
 		in = ir.NewInstFreeze(x)
+
 		mc.use(in, x)
 	case 34:
 		// a landing pad that has no clause yet (clauses are appended later)
-		in = ir.NewLandingPad(tLPad)
+		in = mc.via(func() ir.Instruction { return ir.NewLandingPad(tLPad) }, func(vb *ir.Block) ir.Instruction { return vb.NewLandingPad(tLPad) })
 		mc.probes["landing pad created without clauses"]++
 	case 32:
-		in = ir.NewAlloca(tPair)
+		in = mc.via(func() ir.Instruction { return ir.NewAlloca(tPair) }, func(vb *ir.Block) ir.Instruction { return vb.NewAlloca(tPair) })
 	case 33:
 		// getelementptr into a struct: the result type depends on the VALUE of the
 		// last (constant) index.
 		ps := mc.values(f, tPPair)
 		if len(ps) == 0 {
-			in = ir.NewAlloca(tPair)
+			in = mc.via(func() ir.Instruction { return ir.NewAlloca(tPair) }, func(vb *ir.Block) ir.Instruction { return vb.NewAlloca(tPair) })
 		} else {
 			p := ps[c%len(ps)]
 			i0, i1 := constant.NewInt(tI32, 0), constant.NewInt(tI32, int64(d%2))
-			in = ir.NewGetElementPtr(tPair, p, i0, i1)
+			in = mc.via(func() ir.Instruction { return ir.NewGetElementPtr(tPair, p, i0, i1) }, func(vb *ir.Block) ir.Instruction { return vb.NewGetElementPtr(tPair, p, i0, i1) })
 			mc.use(in, p)
 			mc.probes["struct getelementptr"]++
 		}
@@ -765,12 +802,14 @@ func (mc *machine) newInst(f *mfunc, k, c, d int) ir.Instruction {
 		of := mc.fn(c)
 		ob := mc.block(of, d)
 		if ob == nil {
-			in = ir.NewAlloca(tI8)
+			in = mc.via(func() ir.Instruction { return ir.NewAlloca(tI8) }, func(vb *ir.Block) ir.Instruction { return vb.NewAlloca(tI8) })
 		} else {
-			in = ir.NewPtrToInt(constant.NewBlockAddress(of.f, ob), tI64)
+			in = mc.via(func() ir.Instruction { return ir.NewPtrToInt(constant.NewBlockAddress(of.f, ob), tI64) }, func(vb *ir.Block) ir.Instruction { return vb.NewPtrToInt(constant.NewBlockAddress(of.f, ob), tI64) })
 			mc.use(in, ob)
 			mc.probes["blockaddress operand"]++
 		}
+	default:
+		in, rt2 = mc.newInst2(f, k%nInstKinds, c, d)
 	}
 	return in
 }
@@ -969,7 +1008,15 @@ func (mc *machine) exec1(s Step) bool {
 			g = mc.m.NewGlobal(name, tI32)
 			g.Linkage = enum.LinkageExternal
 		case 1:
-			g = mc.m.NewGlobalDef(name, constant.NewInt(tI32, int64(s.A%50)))
+			var init constant.Constant = constant.NewInt(tI32, int64(s.A%50))
+			if mc.richConsts && s.A%4 == 3 {
+				// an initialiser of one of the rarer constant kinds
+				t := []types.Type{tI64, tI32, tF64, tF32, tI1, tP32, tVec, tPair}[s.A/4%8]
+				if c, ok := mc.konst2(t, 3*(s.A/32)).(constant.Constant); ok {
+					init = c
+				}
+			}
+			g = mc.m.NewGlobalDef(name, init)
 		case 2:
 			if len(mc.globals) == 0 {
 				g = mc.m.NewGlobalDef(name, constant.NewInt(tI64, int64(s.A)))
@@ -997,6 +1044,9 @@ func (mc *machine) exec1(s Step) bool {
 		}
 		if mc.printedOnce && name == "" {
 			mc.probes["unnamed global appended after a print"]++
+		}
+		if s.P != 0 {
+			mc.decorateGlobal(g, s.P)
 		}
 		mc.globals = append(mc.globals, g)
 		return true
@@ -1260,6 +1310,9 @@ func (mc *machine) exec1(s Step) bool {
 			f.Sig.Variadic = true
 			mc.probes["variadic function created"]++
 		}
+		if s.P != 0 {
+			mc.decorateFunc(f, s.P)
+		}
 		if mc.printedOnce && name == "" {
 			mc.probes["unnamed function appended after a print"]++
 		}
@@ -1278,10 +1331,17 @@ func (mc *machine) exec1(s Step) bool {
 		if b == nil {
 			return false
 		}
+		if s.Op == "inst" && s.P%2 == 1 {
+			mc.viaBlock, mc.viaUsed = b, false
+		}
 		in := mc.newInst(f, s.K, s.C, s.D)
+		mc.viaBlock = nil
 		mc.nameInst(f, in, s.Name)
 		if s.Op == "inst" {
-			b.Insts = append(b.Insts, in)
+			if !mc.viaUsed {
+				b.Insts = append(b.Insts, in)
+			}
+			mc.viaUsed = false
 		} else {
 			pos := s.P % (len(b.Insts) + 1)
 			b.Insts = append(b.Insts, nil)
@@ -1318,20 +1378,36 @@ func (mc *machine) exec1(s Step) bool {
 		case 0:
 			rt := f.f.Sig.RetType
 			if rt.Equal(types.Void) {
-				t = ir.NewRet(nil)
+				if s.P%2 == 1 {
+					t = b.NewRet(nil)
+				} else {
+					t = ir.NewRet(nil)
+				}
 			} else {
 				x := mc.pick(f, rt, s.C)
-				t = ir.NewRet(x)
+				if s.P%2 == 1 {
+					t = b.NewRet(x)
+				} else {
+					t = ir.NewRet(x)
+				}
 				mc.use(t, x)
 			}
 		case 1:
 			tb := mc.block(f, s.C)
-			t = ir.NewBr(tb)
+			if s.P%2 == 1 {
+				t = b.NewBr(tb)
+			} else {
+				t = ir.NewBr(tb)
+			}
 			mc.use(t, tb)
 		case 2:
 			c := mc.pick(f, tI1, s.C)
 			b1, b2 := mc.block(f, s.D), mc.block(f, s.C+s.D)
-			t = ir.NewCondBr(c, b1, b2)
+			if s.P%2 == 1 {
+				t = b.NewCondBr(c, b1, b2)
+			} else {
+				t = ir.NewCondBr(c, b1, b2)
+			}
 			mc.use(t, c, b1, b2)
 		case 3:
 			x := mc.pick(f, tI32, s.C)
@@ -1369,6 +1445,11 @@ func (mc *machine) exec1(s Step) bool {
 			}
 			t = inv
 			mc.use(t, append([]value.Value{callee.f, b1, b2}, plain...)...)
+		default:
+			t = mc.newTerm2(f, b, s)
+			if t == nil {
+				t = ir.NewUnreachable()
+			}
 		}
 		b.Term = t
 		return true
@@ -1581,7 +1662,7 @@ func (mc *machine) exec1(s Step) bool {
 			}
 			repl = mc.pick(f, other, s.P)
 			mc.probes["operand replaced by a value of another type"]++
-		case t.Equal(tI1), t.Equal(tI8), t.Equal(tI32), t.Equal(tI64), t.Equal(tF64), t.Equal(tP32), t.Equal(tP8), t.Equal(tVec), t.Equal(tPair):
+		case t.Equal(tI1), t.Equal(tI8), t.Equal(tI32), t.Equal(tI64), t.Equal(tF64), t.Equal(tF32), t.Equal(tP32), t.Equal(tP8), t.Equal(tVec), t.Equal(tPair), t.Equal(tLPad):
 			repl = mc.pick(f, t, s.P)
 		}
 		if repl == nil || repl == old {
@@ -1948,6 +2029,7 @@ func runProgramAlone(p *Prog) (m *ir.Module, mc *machine, err error) {
 	mc = newMachine()
 	mc.illFormed = p.IllFormed
 	mc.literal = p.Literal
+	mc.richConsts = p.Rich
 	if pan, msg := protect(func() {
 		for _, s := range p.Steps {
 			mc.exec(s)
